@@ -15,6 +15,8 @@ import facts
 def run_selftest(run_, pid, max_benign=None):
     seeded = sorted(glob.glob(os.path.join(facts.VERIF, "seeded", pid + "-m*", "patch.diff")))
     benign = sorted(glob.glob(os.path.join(facts.VERIF, "selftest", "benign", "*.patch")))
+    # the variants written for this property and the hand-written cross-cutting ones (the full matrix is tools/benign_matrix.py)
+    benign = [b for b in benign if pid in os.path.basename(b) or os.path.basename(b).startswith("b")]
     if max_benign:
         benign = benign[:max_benign]
     tmp = tempfile.mkdtemp(prefix="pcv-selftest-")
